@@ -468,6 +468,40 @@ func init() {
 			fail("func (*File) deleteWorkbookPivotCache")
 		}
 		fmt.Fprintf(w, "def deletePivotKeepsParts : Bool := %s\n", pivotKeeps)
+		// DeleteSlicer: deleteSlicer (extLst entry, slicer part, worksheet relationship — only when the
+		// slicer part is left empty) then deleteSlicerCache (cache part, workbook relationship, every
+		// slicerCache entry with that id — only when no other slicer uses the cache), in this order
+		inOrder := func(fn string, pats ...string) bool {
+			fd := funcDecl("File", fn)
+			if fd == nil {
+				fail("func (*File) %s", fn)
+				return false
+			}
+			body := src(fd.Body)
+			last := -1
+			ordered := true
+			for _, p := range pats {
+				i := strings.Index(body, p)
+				if i < 0 {
+					fail("%s: skeleton `%s`", fn, p)
+					return false
+				}
+				if i <= last {
+					ordered = false
+				}
+				last = i
+			}
+			return ordered
+		}
+		slicerOrder := inOrder("DeleteSlicer", "_ = f.deleteSlicer(slicer)", "return f.deleteSlicerCache(sles, slicer)")
+		slicerOrder = inOrder("deleteSlicer", "if len(slicers.Slicer) == 0 {", "if slicer.RID == opts.slicerSheetRID {",
+			"decodeExtLst.Ext = append(decodeExtLst.Ext[:i], decodeExtLst.Ext[i+1:]...)", "f.Pkg.Delete(opts.slicerXML)",
+			"f.removeContentTypesPart(ContentTypeSlicer, \"/\"+opts.slicerXML)", "f.deleteSheetRelationships(opts.slicerSheetName, opts.slicerSheetRID)") && slicerOrder
+		slicerOrder = inOrder("deleteSlicerCache", "if slicer.Name != opts.Name && slicer.slicerCacheName == opts.slicerCacheName {", "return nil",
+			"f.Pkg.Delete(opts.slicerCacheXML)", "f.deleteWorkbookRels(SourceRelationshipSlicerCache", "f.deleteWorkbookSlicerCache(rID)",
+			"f.removeContentTypesPart(ContentTypeSlicerCache") && slicerOrder
+		slicerOrder = inOrder("deleteWorkbookSlicerCache", "ext.Content = strings.ReplaceAll(ext.Content, entry, \"\")") && slicerOrder
+		fmt.Fprintf(w, "def deleteSlicerOrder : Bool := %v\n", slicerOrder)
 		// the cell setters and the calculation chain
 		sstFactsLate := func(fn string, pats ...string) {
 			fd := funcDecl("File", fn)
